@@ -1018,7 +1018,7 @@ class AnyBetween(__Class):
         '''
         for c in (start, end):
             if isinstance(c, (str, _pre.Pregex)):
-                if len(str(c).replace("\\", "", 1)) > 1:
+                if len(str(c).replace("\\", "", 1)) > 1 or len(str(c)) == 0:
                     message = f"Argument \"{c}\" is neither a string nor a token."
                     raise _ex.InvalidArgumentTypeException(message)
             else:
@@ -1066,7 +1066,7 @@ class AnyButBetween(__Class):
         '''
         for c in (start, end):
             if isinstance(c, (str, _pre.Pregex)):
-                if len(str(c).replace("\\", "", 1)) > 1: 
+                if len(str(c).replace("\\", "", 1)) > 1 or len(str(c)) == 0:
                     message = f"Argument \"{c}\" is neither a string nor a token."
                     raise _ex.InvalidArgumentTypeException(message)
             else:
@@ -1113,7 +1113,7 @@ class AnyFrom(__Class):
             raise _ex.NotEnoughArgumentsException(message)
         for c in chars:
             if isinstance(c, (str, _pre.Pregex)):
-                if len(str(c).replace("\\", "", 1)) > 1: 
+                if len(str(c).replace("\\", "", 1)) > 1 or len(str(c)) == 0:
                     message = f"Argument \"{c}\" is neither a string nor a token."
                     raise _ex.InvalidArgumentTypeException(message)
             else:
@@ -1157,7 +1157,7 @@ class AnyButFrom(__Class):
             raise _ex.NotEnoughArgumentsException(message)
         for c in chars:
             if isinstance(c, (str, _pre.Pregex)):
-                if len(str(c).replace("\\", "", 1)) > 1: 
+                if len(str(c).replace("\\", "", 1)) > 1 or len(str(c)) == 0:
                     message = f"Argument \"{c}\" is neither a string nor a token."
                     raise _ex.InvalidArgumentTypeException(message)
             else:
